@@ -141,7 +141,25 @@ def layouts(draw, opts=None, min_files=2, max_files=5):
     remap = {old: new for new, old in enumerate(used)}
     assignment = {k: remap[v] for k, v in assignment.items()}
     arrangement = draw(st.sampled_from(['flat', 'subdirs', 'relpath', 'relpath']))
-    return Layout(schema, assignment, len(used), arrangement)
+    lay = Layout(schema, assignment, len(used), arrangement)
+    # redundant direct includes of earlier files are legal and make diamonds / repeated symbols common
+    if lay.nfiles >= 3 and draw(st.booleans()):
+        for i in range(1, lay.nfiles):
+            for j in range(i):
+                if j not in lay.includes[i] and draw(st.integers(0, 2)) == 0:
+                    lay.includes[i] = sorted(lay.includes[i] + [j])
+    # a file is sometimes named after a type it defines (Point.prophy holding struct Point)
+    if draw(st.integers(0, 2)) == 0:
+        stems = []
+        for i in range(lay.nfiles):
+            named = [d.name for d in lay.files[i] if isinstance(d, (Struct, Union, Enum))]
+            if named and draw(st.booleans()):
+                stems.append(draw(st.sampled_from(named)))
+            else:
+                stems.append('f%d' % i)
+        if len(set(stems)) == len(stems):
+            lay.stems = stems
+    return lay
 
 
 def import_package(pkg_dir):
